@@ -100,15 +100,20 @@ func UnTarIndex(ctx context.Context, fs FilesystemWriter, index Index, s Store, 
 	// Feeder - requesting chunks from the workers and handing a result data channel
 	// to the assembler
 	g.Go(func() error {
+		// Stopping early must not look like success, the assembler closes the
+		// pipe which the untar below can take for the end of the archive.
+		var err error
 	loop:
 		for _, c := range index.Chunks {
 			data := make(chan []byte, 1)
 			select {
 			case <-ctx.Done():
+				err = Interrupted{}
 				break loop
 			case req <- requestJob{chunk: c, data: data}: // request the chunk
 				select {
 				case <-ctx.Done():
+					err = Interrupted{}
 					break loop
 				case assemble <- data: // and hand over the data channel to the assembler
 				}
@@ -116,7 +121,7 @@ func UnTarIndex(ctx context.Context, fs FilesystemWriter, index Index, s Store, 
 		}
 		close(req)      // tell the workers this is it
 		close(assemble) // tell the assembler we're done
-		return nil
+		return err
 	})
 
 	// Assember - Read from data channels push the chunks into the pipe that untar reads from
@@ -135,7 +140,7 @@ func UnTarIndex(ctx context.Context, fs FilesystemWriter, index Index, s Store, 
 					return err
 				}
 			case <-ctx.Done():
-				break loop
+				return Interrupted{}
 			}
 		}
 		return nil
